@@ -26,6 +26,7 @@ pub struct REdge {
 pub struct RFunc {
     pub address: u64,
     pub entry: Option<usize>,
+    pub exit: Option<usize>,
     pub blocks: BTreeMap<usize, Vec<RInstr>>,
     pub out: BTreeMap<usize, Vec<REdge>>,
 }
@@ -57,6 +58,7 @@ impl RFunc {
         RFunc {
             address: f.address(),
             entry: f.control_flow_graph().entry(),
+            exit: f.control_flow_graph().exit(),
             blocks,
             out,
         }
